@@ -116,6 +116,8 @@ def gen_program(rng, profile):
     # the batch function may be a plain callable returning an async iterable, failing at call time for some batches
     prog['call_time_raise'] = [rng.random() < 0.12 for _ in range(4)] if base in ('c04', 'c09') else [False] * 4
     prog['item_dur'] = [_w(rng, [(0.0, 5), (0.125, 3), (0.03125, 2)]) for _ in range(4)]
+    if base == 'c10' and rng.random() < 0.25:
+        prog['bf_form'] = 'eager'       # plain callable that starts working when called and returns an async iterator
     if base in ('c10', 'c11'):
         # C10: failing batch functions are not anomalies of the protocol: the limits must survive them
         behs = [('value', 7), ('exc', 2), ('omit', 1.5), ('raise', 1.5)] if base == 'c11' else [('value', 8), ('exc', 1), ('omit', 1), ('raise', 2)]
@@ -141,6 +143,10 @@ def gen_program(rng, profile):
     if base == 'c10' and rng.random() < 0.3:
         prog['mutate'] = [{'at': calls[rng.randrange(len(calls))]['at'] + rng.choice([0.0, E, bt / 2]),
                            'max_batch_size': rng.randint(1, 5)}]
+        if rng.random() < 0.3:
+            prog['mutate'].append({'at': calls[rng.randrange(len(calls))]['at'] + rng.choice([0.0, E, bt / 2, bt]),
+                                   'max_batch_size': rng.randint(1, 5)})
+            prog['mutate'].sort(key=lambda m: m['at'])
         prog['form'] = 'class'
     return prog
 
@@ -156,6 +162,9 @@ class Batch:
         self.events = []        # ('yield', key, obj) in order
         self.raised = None
         self.finished = False
+        self.eager = False
+        self.iter_started = False
+        self.end_step = None
 
 
 class Call:
@@ -232,19 +241,34 @@ class BatcherWorld:
             self.count('bf.raise_at_call_time')
             self.sch.log('batch', b, [k for k, _ in items], 'call-time-raise')
             raise B.raised
+        if self.prog.get('bf_form') == 'eager':
+            # An ordinary callable that starts the work when called (fires the bulk request) and returns an async iterator
+            # over the answers: the execution is in progress from the call on.  Concurrency is judged at the end of the run
+            # over the executions whose iterator was actually started.
+            items = list(items)
+            B = Batch(b, items, self.sch.clock, self.sch.step)
+            B.eager = True
+            self.batches.append(B)
+            self.sch.log('batch', b, [k for k, _ in items], 'eager')
+            return self.bf(items, B)
         return self.bf(items)
 
-    async def bf(self, items):
+    async def bf(self, items, B=None):
         sch = self.sch
         items = list(items)
-        b = len(self.batches)
-        B = Batch(b, items, sch.clock, sch.step)
-        self.batches.append(B)
+        eager = B is not None
+        if eager:
+            b = B.b
+            B.iter_started = True
+        else:
+            b = len(self.batches)
+            B = Batch(b, items, sch.clock, sch.step)
+            self.batches.append(B)
+            sch.log('batch', b, [k for k, _ in items])
         self.running += 1
         self.max_running = max(self.max_running, self.running)
-        sch.log('batch', b, [k for k, _ in items])
         mc = self.prog['max_concurrent_batches']
-        if self.running > mc:
+        if self.running > mc and not eager:
             self.viol('C10', 'batcher.concurrency', 'more executions in progress than max_concurrent_batches',
                       f'batch {b} started at t={sch.clock} as execution #{self.running} (limit {mc})')
         try:
@@ -303,6 +327,7 @@ class BatcherWorld:
         finally:
             self.running -= 1
             B.end = sch.clock
+            B.end_step = sch.step
             if S.CUR is sch:
                 sch.log('batch-end', b)
 
@@ -657,6 +682,14 @@ class BatcherWorld:
         p = self.prog
         bt = p['batch_timeout']
         mc = p['max_concurrent_batches']
+        eb = [B for B in self.batches if B.eager and B.iter_started]
+        for B in eb:
+            n = 1 + sum(1 for X in eb if X is not B and X.step < B.step and (X.end_step is None or X.end_step > B.step))
+            self.max_running = max(self.max_running, n)
+            if n > mc:
+                self.viol('C10', 'batcher.concurrency', 'more executions in progress than max_concurrent_batches',
+                          f'batch {B.b} (eager batch function) was called at t={B.start} as execution #{n} (limit {mc})')
+                break
         # FIFO: concatenation of batches in start order == arrival order
         flat = [k for B in self.batches for k, _ in B.items]
         arr = [C.key for C in self.arrivals]
@@ -666,13 +699,33 @@ class BatcherWorld:
             return
         tarr = {C.key: C.t_call for C in self.arrivals}
         mutated = len(self.size_limits) > 1
+
+        def limits_at(t):
+            # the limit(s) the collector can have read at instant t: the one in force just before t and the one in force at t
+            # (a mutation at exactly t is a tie with the arrival; both orders are legal)
+            before = [n for tm, n in self.size_limits if tm < t]
+            at = [n for tm, n in self.size_limits if tm <= t]
+            return {before[-1] if before else self.size_limits[0][1], at[-1]}
+        if mutated:
+            # The limit is public and mutable: the collector consults it each time an item joins.  Item j (j >= 2) joined a
+            # batch that held j-1 items since item j-1 arrived, so j-1 must have been below the limit read at that instant.
+            for B in self.batches:
+                ks = [k for k, _ in B.items]
+                for j in range(2, len(ks) + 1):
+                    lim = max(limits_at(tarr[ks[j - 2]]))
+                    if j - 1 >= lim:
+                        self.viol('C10', 'batcher.oversize', 'batch grew past the max_batch_size in force when the item joined',
+                                  f'batch {B.b} {ks}: item #{j} joined although the batch already held {j - 1} item(s) when '
+                                  f'{ks[j - 2]} arrived at t={tarr[ks[j - 2]]} and the limit then was {lim} '
+                                  f'(limits over time {self.size_limits})', mutated=True)
+                        break
         # sharing: consecutive arrivals < bt apart share a batch unless it is full
         where = {k: B for B in self.batches for k, _ in B.items}
         for a, b in zip(self.arrivals, self.arrivals[1:]):
             gap = b.t_call - a.t_call
             if gap < bt and where[a.key] is not where[b.key]:
                 B = where[a.key]
-                lim = min(n for _, n in self.size_limits) if mutated else p['max_batch_size']
+                lim = min(limits_at(a.t_call)) if mutated else p['max_batch_size']
                 if len(B.items) < lim:
                     self.viol('C10', 'batcher.split_burst', 'calls less than batch_timeout apart did not share a batch',
                               f'{a.key}@{a.t_call} and {b.key}@{b.t_call} (gap {gap} < {bt}); batch {B.b} has '
